@@ -154,6 +154,8 @@ def _gen_cases(tier, seed):
                 cell, time = [v for v in vs if v[0]][len(parts) % len([v for v in vs if v[0]])]
                 yield dict(i=i, kind="compose", fmt=fmt, cell=True, time=time, parts=parts, tric=True)
                 i += 1
+                yield dict(i=i, kind="compose", fmt=fmt, cell=True, time=time, parts=parts, tric="shear")
+                i += 1
         for parts in pick[:1] if tier == "quick" else pick:
             cell, time = vs[(1 + f) % len(vs)]
             yield dict(i=i, kind="compose", fmt=fmt, cell=cell, time=time, parts=parts, na=700)
@@ -350,7 +352,7 @@ def open_w(path, fmt, top, mode="w"):
 
 
 def traj_for(n, cell, na=NA, tric=False):
-    return files.ident_traj(n, na, cell="tric" if tric else "ortho")
+    return files.ident_traj(n, na, cell=tric if isinstance(tric, str) else ("tric" if tric else "ortho"))
 
 
 def load_back(path, fmt, top):
@@ -446,10 +448,10 @@ def same_payload(a, b):
 
 def _compose(case, ctx, d):
     fmt, cell, time, parts = case["fmt"], case["cell"], case["time"], case["parts"]
-    shape, opts, na, tric = case.get("shape"), bool(case.get("opts")), case.get("na", NA), bool(case.get("tric"))
+    shape, opts, na, tric = case.get("shape"), bool(case.get("opts")), case.get("na", NA), case.get("tric") or False
     n = sum(parts)
     t = traj_for(n, cell, na, tric)
-    cls = ",".join(x for x in (f"shape={shape}" if shape else "", "options" if opts else "", "tric" if tric else "", f"atoms={na}" if na != NA else "") if x)
+    cls = ",".join(x for x in (f"shape={shape}" if shape else "", "options" if opts else "", ("shear" if tric == "shear" else "tric") if tric else "", f"atoms={na}" if na != NA else "") if x)
     if cls:
         ctx.observe("write_input_class", cls)
     one, inc = os.path.join(d, f"one.{fmt}"), os.path.join(d, f"inc.{fmt}")
@@ -466,7 +468,7 @@ def _compose(case, ctx, d):
         # the target already exists and holds MORE frames: mode 'w' must replace it, not write into it
         ctx.observe("overwrite_existing_longer_file", fmt)
         try:
-            write_parts(inc, fmt, files.ident_traj(n + 4, na, cell="tric" if tric else "ortho", f0=20), [n + 4], cell, time)
+            write_parts(inc, fmt, files.ident_traj(n + 4, na, cell=(tric if isinstance(tric, str) else "tric") if tric else "ortho", f0=20), [n + 4], cell, time)
         except Exception as e:
             ctx.skip("compose", f"{fmt}: could not prepare the file to be overwritten: {type(e).__name__}")
             return
